@@ -87,16 +87,26 @@ def bounds(tier):
         "lattice": "{0,1,2}^3, subsets of size 1..4 up to the 24 rotations: 4+22+139+779 sets"
                    + ("; size 5: 3455 sets (exact + mask spaces)" if tier == "thorough" else ""),
         "listed_sets": {k: len(v) for k, v in BIG_SETS.items()},
-        "motions": "24 rotations x 3 translations (palette by seed); mask/outlier spaces: 6 listed motions",
+        "motions": "exact/single: 24 rotations x 3 translations (palette by seed); noise: "
+                   + ("24 x 3" if tier == "thorough" else "24 rotations x translation #1")
+                   + "; mask space: 6 listed motions; single-call noise: " + ("6 listed motions" if tier == "thorough"
+                                                                              else "1 listed motion"),
         "noise": "one coordinate of one atom displaced by +-m1, +-m2 (palette by seed), before the motion",
-        "masks": "all subsets with >= 1 atom (n<=4: all; listed sets: all 2^n-1"
-                 + ("" if tier == "thorough" else ", quick: 5-8 point sets with one magnitude") + ")",
-        "containers": "ndarray f64/f32, AtomArray, ndarray stack depth 1/2/3, AtomArrayStack depth 1/2/3",
+        "masks": "all subsets with >= 1 atom of every set with n >= 2 (listed sets: all 2^n-1)"
+                 + ("; 5-point lattice sets with magnitude m2 only" if tier == "thorough"
+                    else "; 4-point and listed sets with magnitude m2 only"),
+        "containers": "9 x 9 (fixed, mobile) over ndarray f64/f32, AtomArray, ndarray stack depth 1/2/3, "
+                      "AtomArrayStack depth 1/2/3, x mask {none, full, partial} x {exact, noisy} geometry over all "
+                      + ("1..4" if tier == "thorough" else "1..3") + "-point lattice sets + listed sets"
+                      + ("" if tier == "thorough" else " (3-point sets: noisy geometry only)"),
+        "homolog_variants": "3 geometries x min_anchors {1,2,3} x max_iterations {default, 1"
+                            + ("" if tier == "thorough" else " (geometry #1 only)") + "} + min_anchors 4 + hetero tail"
+                            " + mobile stack + both stacks",
         "outlier_params": "min_anchors {1,3,n} x max_iterations {1,2,10} x (quantiles,threshold) "
                           "{((.25,.75),1.5), ((.9,.1),.5), ((.4,.6),0)} on the listed sets (displacements +-m1, +-m2, "
-                          "+-3; " + ("6" if tier == "thorough" else "3") + " motions; also mobile stacks of depth 2); "
+                          "+-3; " + ("6" if tier == "thorough" else "2") + " motions; also mobile stacks of depth 2); "
                           + ("all 3- and 4-point lattice sets x all displacements x the 27 triples" if tier == "thorough"
-                             else "all 4-point lattice sets x displacements +-m2 x 6 listed triples"),
+                             else "all 4-point lattice sets x displacements +-m2 x 5 listed triples"),
         "homolog_sequences": ("peptides {ALA,GLY,SER}^2..4 both sides" if tier == "thorough" else
                               "peptides {ALA,GLY,SER}^2..3 both sides + {ALA,SER}^4 both sides")
                              + "; nucleotides {A,DA}^2..4 both sides; two-chain peptides ({A,G,S}^2)^2",
@@ -535,7 +545,7 @@ def run_shape_case(ctx, desc, focus=None):
 QT = [((0.25, 0.75), 1.5), ((0.9, 0.1), 0.5), ((0.4, 0.6), 0.0)]
 
 
-QUICK_PARAMS = [(1, 10, 0), (3, 10, 0), (3, 2, 0), (3, 1, 0), (3, 10, 1), (1, 10, 2)]
+QUICK_PARAMS = [(1, 10, 0), (3, 10, 0), (3, 2, 0), (3, 1, 0), (3, 10, 1)]
 
 
 def outlier_params(n, full):
@@ -861,6 +871,8 @@ def homolog_cases(shard, tier):
             for geo in range(len(GEO)):
                 for ma in (1, 2, 3):
                     for mi in (None, 1):
+                        if mi == 1 and geo != 1 and tier == "quick":
+                            continue
                         out.append({"kind": "homolog", "f": fch, "m": [ms], "geo": geo, "ma": ma, "mi": mi})
             if len(ms) <= 3 and len(fch[0]) <= 3:
                 out.append({"kind": "homolog", "f": fch, "m": [ms], "geo": 1, "ma": 2, "mi": None, "hetero": True})
@@ -973,9 +985,13 @@ def fit_descs(shard, tier, seed):
                 yield {**base, "mode": "single", "rots": [], "motions": (M6 if th else [[13, 1]]), "mags": mags,
                        "mask": None}
         elif space == "noise":
-            yield {**base, "mode": "stack", "rots": list(range(24)), "mags": mags, "mask": None}
+            if th:
+                yield {**base, "mode": "stack", "rots": list(range(24)), "mags": mags, "mask": None}
+            else:
+                yield {**base, "mode": "stack", "rots": [], "motions": [[g, 1] for g in range(24)], "mags": mags,
+                       "mask": None}
         elif space == "mask":
-            mg = mags if (th and size != 5) or (size not in ("big", 5)) else [mags[1]]
+            mg = mags if (th and size != 5) or (size in (2, 3)) else [mags[1]]
             for mask in all_masks(n):
                 yield {**base, "mode": "stack", "rots": [], "motions": [list(x) for x in M6], "mags": mg,
                        "mask": mask}
@@ -988,6 +1004,8 @@ def shape_descs(shard, tier, seed):
         if si % shard["parts"] != shard["part"]:
             continue
         for var in ("exact", "noisy"):
+            if var == "exact" and tier == "quick" and shard["size"] == 3:
+                continue
             for fc in CONTAINERS:
                 for mc in CONTAINERS:
                     for mm in MASKMODES:
@@ -1006,7 +1024,7 @@ def outlier_descs(shard, tier, seed):
             continue
         n = len(F)
         th = tier == "thorough"
-        motions = [list(x) for x in (M6 if th else M6[1:4])] if big else [[8, 2]]
+        motions = [list(x) for x in (M6 if th else M6[1:3])] if big else [[8, 2]]
         prm = [list(p) for p in outlier_params(n, big or th)]
         mg = list(mags) + [3.0] if big else (list(mags) if th else [mags[1]])
         yield {"kind": "outlier", "fixed": F, "trans": trans, "mags": mg,
